@@ -1,6 +1,8 @@
 """Seeded generation of C20 worlds: algebra, scene tree, options, drag script, channel behaviour."""
 from .c20 import ref_tables, effective_top
 
+import os
+DRAG_TOP_ARRAY = os.environ.get('VERIF_C20_DRAG_TOP_ARRAY', '1') == '1'
 COLOURS = [0xD0FFE1, 0x224488, 0x00AA88, 0xFF0000, 0]
 
 
@@ -127,10 +129,10 @@ def gen_trace20(rng, tier='quick'):
                  p_dup=rng.choice([0, 0, 0.1, 0.3]), float32=rng.random() < 0.8,
                  rerender_on_change=rng.random() < 0.5, max_reports=rng.choice([10, 25, 40]))
     if top_array:
-        # an array-valued multivector at the top level is expanded in place; which front-end element
-        # then corresponds to which draggable point depends on ganja behaviour -> no drags in such worlds
+        # an array-valued multivector at the top level is expanded in place, so positions in the decoded
+        # subjects differ from positions in the scene (open finding D3 before its repair)
         world['allow_misaligned'] = True
-    elif draggable_slots and rng.random() < 0.8:
+    if draggable_slots and rng.random() < 0.8 and (not top_array or DRAG_TOP_ARRAY):
         t = 0.05
         for _ in range(rng.randint(1, 7)):
             t += rng.choice([0.001, 0.01, 0.05, 0.2])
